@@ -320,46 +320,57 @@ fn scenario_c16(scratch: PathBuf, found: Found, seed: u64) {
     let env = Arc::new(HistEnv::new(&scratch));
     let mut rng = Rng::new(seed);
     env.update(DATA[0]);
-    let (_, headers0, _) = env.get("/json", &[]);
-    let etag0 = headers0.get("etag").cloned().unwrap_or_default();
-    let lm0 = headers0.get("last-modified").cloned().unwrap_or_default();
-    let same_second = rng.chance(30, 100);
+    // One to three further versions, several of them possibly within the
+    // same second of the simulated clock.
+    let n_updates = 1 + rng.usize(3);
+    let advances: Vec<i64> = (0..n_updates).map(|_| {
+        *rng.pick(&[0i64, 0, 0, 1, 3])
+    }).collect();
     let updater = {
         let env = env.clone();
         shuttle::thread::spawn(move || {
-            sim::clock::advance(if same_second { 0 } else { 3 });
-            env.update(DATA[1]);
+            for (i, adv) in advances.into_iter().enumerate() {
+                sim::clock::advance(adv);
+                env.update(DATA[(i + 1) % DATA.len()]);
+            }
         })
     };
     let mut handles = Vec::new();
     let clients = 1 + rng.usize(2);
-    for c in 0..clients {
+    for _ in 0..clients {
         let env = env.clone();
         let found = found.clone();
-        let etag0 = etag0.clone();
-        let lm0 = lm0.clone();
         let variant = rng.below(3);
-        let _ = c;
+        let rounds = 1 + rng.usize(3);
         handles.push(shuttle::thread::spawn(move || {
-            let headers: Vec<(&str, &str)> = match variant {
-                0 => vec![("If-None-Match", &etag0)],
-                1 => vec![("If-Modified-Since", &lm0)],
-                _ => vec![("If-None-Match", "\"bogus\""),
-                          ("If-Modified-Since", &lm0)],
-            };
-            for _ in 0..2 {
-                let (status, resp, _) = env.get("/json", &headers);
-                if status == 304 {
-                    let etag = resp.get("etag").cloned().unwrap_or_default();
-                    if etag != etag0 {
-                        found.lock().unwrap().push((
-                            "stale-304".into(),
-                            format!(
-                                "304 Not Modified for validators {headers:?} \
-                                 of version {etag0} while version {etag} \
-                                 (different data) is being served"
-                            )
-                        ));
+            for _ in 0..rounds {
+                // Learn the validators of whatever version is served now.
+                let (_, headers0, _) = env.get("/json", &[]);
+                let etag0 = headers0.get("etag").cloned().unwrap_or_default();
+                let lm0 = headers0.get("last-modified").cloned()
+                    .unwrap_or_default();
+                let headers: Vec<(&str, &str)> = match variant {
+                    0 => vec![("If-None-Match", &etag0)],
+                    1 => vec![("If-Modified-Since", &lm0)],
+                    _ => vec![("If-None-Match", "\"bogus\""),
+                              ("If-Modified-Since", &lm0)],
+                };
+                for _ in 0..2 {
+                    let (status, resp, _) = env.get("/json", &headers);
+                    if status == 304 {
+                        let etag = resp.get("etag").cloned()
+                            .unwrap_or_default();
+                        if etag != etag0 {
+                            found.lock().unwrap().push((
+                                "stale-304".into(),
+                                format!(
+                                    "304 Not Modified for validators \
+                                     {headers:?} of version {etag0} while \
+                                     version {etag} (different data) is \
+                                     being served"
+                                )
+                            ));
+                        }
                     }
                 }
             }
@@ -514,7 +525,13 @@ fn scenario_c37(scratch: PathBuf, found: Found, seed: u64) {
     for (i, (module, dir)) in [("m0", "a"), ("m0", "b"), ("m1", "c")]
         .iter().enumerate()
     {
-        let repo = format!("rsync://h0.sim.example/{module}/{dir}/");
+        // Host names compare case-insensitively: the same module may be
+        // spelled differently by different CAs.
+        let host = *rng.pick(&[
+            "h0.sim.example", "h0.sim.example", "H0.sim.example",
+            "h0.SIM.Example",
+        ]);
+        let repo = format!("rsync://{host}/{module}/{dir}/");
         let spec = CaCertSpec {
             serial: 10 + i as u64,
             subject_key: i,
